@@ -56,23 +56,33 @@ def run(ctx):
             ctx.violation("scd-value", {"seq": s, "after": hist}, actual=out)
             continue
         trs.append({"tid": i + 1, "seq": list(s), "after": hist, "ev": [{"q": "scd", "r": common.fx(out[1])}]})
-    patterning.judge_traces(ctx, trs, need_sqrt=max(len(s) for s in seqs))
-    # beyond what TLC evaluates here: two sequences of more than 1000 residues with the same ends (harness arithmetic only)
+    # two sequences of more than 1000 residues with the same ends (judged by TLC like the others); in the thorough tier also the size
+    # class of giant proteins (4099 and 8200+ residues: a minute of computing in the library itself)
     ends = "KEG"
+    longs = []
     for rep in range(2):
-        body = common.random_sequences(ctx.rng, 1, 1300, 1100)[0]
-        s = ends + body + ends[::-1]
-        out = common.call(lc.SP(s).get_SCD, limit=300)
-        x = common.charge_pattern(s)
+        longs.append(ends + common.random_sequences(ctx.rng, 1, 1300, 1100)[0] + ends[::-1])
+    if not ctx.quick:
+        longs += ["".join(ctx.rng.choices("KEDRGSPQ", k=n_)) for n_ in (4099, ctx.rng.randint(8193, 8300))]
+    for s in longs:
+        out = common.call(lc.SP(s).get_SCD, limit=900)
+        ctx.evaluations += 1
+        if out[0] != "ok" or not common.is_number(out[1]):
+            ctx.violation("scd-value", {"seq": s[:40] + "...", "length": len(s)}, expected="a number", actual=out)
+            continue
+        if len(s) <= 1500:
+            trs.append({"tid": len(trs) + 1000, "seq": list(s), "after": [{"made": "%d residues" % len(s)}], "ev": [{"q": "scd", "r": common.fx(out[1])}]})
+            continue
+        x = common.charge_pattern(s)                 # beyond what TLC is given: the same sum in the harness (exact coefficients, sqrt table)
         idx = [(i, c) for i, c in enumerate(x) if c]
         coeffs = [0] * (len(x) - 1)
         for a in range(len(idx)):
             for b in range(a + 1, len(idx)):
                 coeffs[idx[b][0] - idx[a][0] - 1] += idx[a][1] * idx[b][1]
         exact = scd_exact(coeffs, len(x))
-        ctx.evaluations += 1
-        if out[0] != "ok" or not common.is_number(out[1]) or not common.close(out[1], exact):
+        if not common.close(out[1], exact):
             ctx.violation("scd-value", {"seq": s[:40] + "...", "length": len(s)}, expected=float(exact), actual=out)
+    patterning.judge_traces(ctx, trs, need_sqrt=max(len(s) for s in seqs + longs[:2]))
     ctx.sample({"trace": {"seq": seqs[0], "ev": ["get_SCD"]}})
     ctx.assumptions += ["sqrt(d) enters as floor(sqrt(d)*1e15) computed by the harness; TLC verifies r^2 <= d*1e30 < (r+1)^2 before use",
                         "1e-9 relative tolerance"]
